@@ -33,6 +33,10 @@ EXC_TREE = {
     'UnicodeDecodeError': 'UnicodeError', 'UnicodeEncodeError': 'UnicodeError',
     'Warning': 'Exception', 'DeprecationWarning': 'Warning', 'UserWarning': 'Warning',
     'struct.error': 'Exception', 'binascii.Error': 'ValueError',
+    # python-libusb1: every error is a USBError
+    'usb1.USBError': 'Exception', 'usb1.USBErrorTimeout': 'usb1.USBError', 'usb1.USBErrorNoDevice': 'usb1.USBError',
+    'usb1.USBErrorPipe': 'usb1.USBError', 'usb1.USBErrorIO': 'usb1.USBError', 'usb1.USBErrorAccess': 'usb1.USBError',
+    'usb1.USBErrorBusy': 'usb1.USBError', 'usb1.USBErrorOverflow': 'usb1.USBError', 'usb1.USBErrorOther': 'usb1.USBError',
 }
 
 OSERROR_BY_ERRNO = {}
@@ -360,6 +364,7 @@ class World(object):
             'unhexlify': NativeFunc('unhexlify', _unhexlify),
             'Error': self.bclasses['binascii.Error'],
         })
+        mod('usb1', {k.split('.')[1]: self.bclasses[k] for k in self.bclasses if k.startswith('usb1.')})
         mod('contextlib', {'contextmanager': NativeFunc('contextlib.contextmanager', _contextmanager)})
         mod('random', {
             'choice': NativeFunc('random.choice', _random_choice),
@@ -390,6 +395,8 @@ class World(object):
             'call_arg': NativeFunc('call_arg', _call_arg),
             'ideal': NativeFunc('ideal', _ideal),
             'call_ret': NativeFunc('call_ret', _call_ret),
+            'call_raised': NativeFunc('call_raised', _call_raised),
+            'call_errno': NativeFunc('call_errno', _call_errno),
             'urandom_draws': NativeFunc('urandom_draws', _urandom_draws),
             'was_called': NativeFunc('was_called', lambda ex, a, k: a[0] in ex.ghost.get('call_args', {})),
             'entries_none_from': NativeFunc('entries_none_from', _entries_none_from),
@@ -553,6 +560,20 @@ def _call_ret(ex, a, k):
     if a[0] not in d:
         raise Unsupported('call_ret: %s did not return on this path' % a[0])
     return d[a[0]]
+
+
+def _call_raised(ex, a, k):
+    """name of the exception class the last call of the callee replaced by contract a[0] raised, None if it
+    returned (or was not called)"""
+    e = ex.ghost.get('call_exc', {}).get(a[0])
+    return None if e is None else e[0]
+
+
+def _call_errno(ex, a, k):
+    e = ex.ghost.get('call_exc', {}).get(a[0])
+    if e is None:
+        raise Unsupported('call_errno: %s did not raise on this path' % a[0])
+    return e[1]
 
 
 def _call_arg(ex, a, k):
